@@ -955,7 +955,7 @@ func unparseQuery(q b6.Query) (string, bool) {
 		qs := make([]string, len(q))
 		for i := range q {
 			var ok bool
-			if qs[i], ok = unparseQuery(q[i]); !ok {
+			if qs[i], ok = unparseOperand(q[i]); !ok {
 				return "", false
 			}
 		}
@@ -964,7 +964,7 @@ func unparseQuery(q b6.Query) (string, bool) {
 		qs := make([]string, len(q))
 		for i := range q {
 			var ok bool
-			if qs[i], ok = unparseQuery(q[i]); !ok {
+			if qs[i], ok = unparseOperand(q[i]); !ok {
 				return "", false
 			}
 		}
@@ -979,6 +979,16 @@ func unparseQuery(q b6.Query) (string, bool) {
 		return unparseQuery(*q)
 	}
 	return "", false
+}
+
+// unparseOperand prints an operand of & or |, in brackets if it's itself an
+// intersection or union, since the grammar has no precedence between the two.
+func unparseOperand(q b6.Query) (string, bool) {
+	switch q.(type) {
+	case b6.Intersection, *b6.Intersection, b6.Union, *b6.Union:
+		return UnparseQuery(q)
+	}
+	return unparseQuery(q)
 }
 
 func UnparseExpression(e b6.Expression) (string, bool) {
